@@ -213,6 +213,10 @@ def main():
         consts = {"HEADER": E.HEADER, "LEN": E.LEN_HELPER_SNIPPET, "LIST": E.LIST_HELPER_SNIPPET,
                   "LCD": E.LCD_HELPER_SNIPPET, "SETUP_START": E.SETUP_START, "SETUP_END": E.SETUP_END,
                   "LOOP_START": E.LOOP_START, "LOOP_END": E.LOOP_END}
+        # helper snippets of later versions of the emitter (// and % templates): present only when the emitter has them
+        for key, attr in (("FLOORDIV", "FLOORDIV_HELPER_SNIPPET"), ("MOD", "MOD_HELPER_SNIPPET")):
+            if isinstance(getattr(E, attr, None), str):
+                consts[key] = getattr(E, attr)
         json.dump({"consts": consts, "results": res}, sys.stdout)
         return
     raise SystemExit("unknown op " + op)
